@@ -7,10 +7,46 @@ ENV = "export GOFLAGS=-mod=mod GOPROXY=off GOSUMDB=off GOTOOLCHAIN=local"
 
 # id -> (technique, level text, level note, design ref)
 CHECKS = {
+ "C01": ("online reference-model monitor (lockstep abstract map) over order-family workloads on all 8 key-value containers",
+         "Exploration: every Put/Remove/Clear/Get of each generated history runs on the real container and on an abstract map (identity- or comparator-class-keyed); Get of touched + probe keys, Size, Empty after every call, Keys/Values exactly-once and alignment on every call while n<=64; remove-absent compares snapshots. Holds on the executed histories only.",
+         "Trusts the abstract-map model (kvmodel.go) and Go's runtime; keys int/string, values int; comparators natural/reversed/coarsened.",
+         "DESIGN.md §4 C01"),
+ "C02": ("online monitor: sortedness, iterator walk, extremes and exhaustive Floor/Ceiling probing against a sorted model",
+         "Exploration: after every call of C01-style histories on the six comparator-ordered containers, enumeration order, all extreme accessors and Floor/Ceiling for present, absent, between-neighbour and out-of-range probes are compared with the sorted model. Holds on the executed histories and probes only.",
+         "Trusts the sorted model (binary search over a slice) and the comparators being strict weak orders.",
+         "DESIGN.md §4 C02"),
  "C03": ("online reference-model monitor (lockstep abstract sequence) over hostile randomized + swept list histories",
          "Exploration: every call of each generated history is made on the real ArrayList, SinglyLinkedList and DoublyLinkedList and on a Go-slice model; Values/Get/IndexOf/Contains/Size/Empty are compared after each call. Holds on the executed histories only (counts in the evidence file).",
          "Trusts the 60-line slice model and Go's runtime; element types int and string; Sort tie order is not constrained.",
          "DESIGN.md §4 C03"),
+ "C04": ("online reference-model monitor (lockstep abstract set) over variadic Add/Remove/Contains histories",
+         "Exploration: after every Add/Remove/Clear on HashSet, LinkedHashSet and TreeSet, Contains over the whole alphabet, Contains(list), Size, Empty and Values (each member exactly once) are compared with a model set. Holds on the executed histories only.",
+         "Trusts the model set; element types int and string; TreeSet comparators natural/reversed/coarsened.",
+         "DESIGN.md §4 C04"),
+ "C05": ("online reference-model monitor (LIFO/FIFO/bounded FIFO with unique items) incl. a sweep of every ring (capacity, offset, fill) state",
+         "Exploration: every Push/Pop/Peek/Enqueue/Dequeue/Clear return value and Values/Size/Empty/Full after every call are compared with a slice model; the ring sweep visits every (capacity<=17, start offset, fill) state and samples larger capacities. Holds on the executed histories only.",
+         "Trusts the slice model; items are unique ints.",
+         "DESIGN.md §4 C05"),
+ "C06": ("online multiset monitor with minimality check on every Pop/Peek, permutation check of Values/iteration, final drain",
+         "Exploration: BinaryHeap and PriorityQueue under interleaved single/bulk Push, Pop, Peek, Clear, FromJSON with five comparators incl. ties between distinguishable elements; every return value is checked for membership and minimality against a multiset. Holds on the executed histories only.",
+         "Trusts the multiset model; elements are {P, unique ID} structs.",
+         "DESIGN.md §4 C06"),
+ "C07": ("counting comparator per call (client-boundary hook) against the stated bounds + structure walkers at every quiescent point",
+         "Exploration: every Get/Put/Remove on RedBlackTree, AVLTree, BTree is measured against the stated comparator-call bound, and the exported structure is walked (AVL heights, B-tree node shape/leaf depth/Height(), red-black path ratio/node count/parent links) under amplifying workloads up to n=3000 (quick) / 20000 (thorough). Holds on the executed histories only.",
+         "Bound evaluated with n = max(size before, size after); red-black paths counted in nodes to NIL leaves.",
+         "DESIGN.md §4 C07"),
+ "C08": ("online monitor: integer cursor model shadowing each of the 18 iterator types, swept and random call sequences",
+         "Exploration: every Next/Prev/Begin/End/First/Last/NextTo/PrevTo call is mirrored on a cursor over the container's own sequence; return values and Index/Key/Value after successful moves are compared. Sweep covers every (n<=6, position, op); random sequences cover larger and post-removal states. Holds on the executed call sequences only.",
+         "Container unmodified during iteration; values read only after successful moves.",
+         "DESIGN.md §4 C08"),
+ "C09": ("online reference-model monitor (insertion-order list) incl. Each callback log and ToJSON token order",
+         "Exploration: after every Put/Add/Remove/Clear on LinkedHashMap and LinkedHashSet, Keys, Values, iterator walk, Each order and ToJSON order are compared with the model order. Holds on the executed histories only.",
+         "Trusts the slice+map model; int and string keys.",
+         "DESIGN.md §4 C09"),
+ "C10": ("online reference-model monitor (pair of inverse maps), every key and value probed in both directions after every call",
+         "Exploration: HashBidiMap and TreeBidiMap over 4-6 keys x 4-6 values so all collision kinds occur constantly; Get/GetKey for the whole alphabets, inverse consistency on the implementation's own answers, Size=len(Keys)=len(Values), no duplicate/stale value. Holds on the executed histories only.",
+         "Trusts the two-map model with the stated Put/Remove rule (class-keyed for TreeBidiMap).",
+         "DESIGN.md §4 C10"),
 }
 
 def main():
